@@ -413,6 +413,206 @@ fn run_threads(cx: &mut CaseCx, case: &Value) {
 }
 
 
+
+/// byte strings a careless canonicalisation could merge with `s`
+pub fn neighbours(s: &[u8]) -> Vec<(String, Vec<u8>)> {
+  let mut v: Vec<(String, Vec<u8>)> = vec![];
+  for i in 0..s.len().min(12) {
+    for bit in 0..8 {
+      let mut t = s.to_vec();
+      t[i] ^= 1 << bit;
+      v.push((format!("bit {} of byte {} flipped", bit, i), t));
+    }
+  }
+  for &c in &[0x00u8, 0x20, 0x09, 0x0a, 0x0d, 0x2f, 0x80, 0xbf, 0xc3, 0xff, b'2'] {
+    let mut t = s.to_vec();
+    t.push(c);
+    v.push((format!("byte {:#04x} appended", c), t));
+    let mut t = vec![c];
+    t.extend_from_slice(s);
+    v.push((format!("byte {:#04x} prepended", c), t));
+  }
+  if !s.is_empty() {
+    v.push(("last byte dropped".into(), s[..s.len() - 1].to_vec()));
+    v.push(("first byte dropped".into(), s[1..].to_vec()));
+    let mut t = s.to_vec();
+    t.reverse();
+    v.push(("reversed".into(), t));
+    v.push(("doubled".into(), [s, s].concat()));
+    // ASCII case folding, UTF-8 BOM, replacement character for the last byte, NFC/NFD forms
+    v.push(("ASCII upper-cased".into(), s.to_ascii_uppercase()));
+    v.push(("ASCII lower-cased".into(), s.to_ascii_lowercase()));
+    v.push(("UTF-8 BOM prepended".into(), [&[0xef, 0xbb, 0xbf][..], s].concat()));
+    v.push(("last byte replaced by U+FFFD".into(), [&s[..s.len() - 1], &[0xef, 0xbf, 0xbd][..]].concat()));
+    v.push(("lossy UTF-8 conversion".into(), String::from_utf8_lossy(s).as_bytes().to_vec()));
+    v.push(("hex-encoded".into(), hex(s).into_bytes()));
+  }
+  if let Ok(txt) = std::str::from_utf8(s) {
+    v.push(("e-acute decomposed".into(), txt.replace('\u{e9}', "e\u{301}").into_bytes()));
+    v.push(("e-acute composed".into(), txt.replace("e\u{301}", "\u{e9}").into_bytes()));
+    v.push(("trimmed".into(), txt.trim().as_bytes().to_vec()));
+  }
+  v.retain(|(_, t)| t != s);
+  v.sort_by(|a, b| a.1.cmp(&b.1));
+  v.dedup_by(|a, b| a.1 == b.1);
+  v
+}
+/// variable-width integer encodings: (name, encode)
+fn var_encodings() -> Vec<(&'static str, fn(u32) -> Vec<u8>)> {
+  fn leb(mut t: u32) -> Vec<u8> {
+    let mut o = vec![];
+    loop {
+      let b = (t & 0x7f) as u8;
+      t >>= 7;
+      if t == 0 {
+        o.push(b);
+        return o;
+      }
+      o.push(b | 0x80);
+    }
+  }
+  fn dec(t: u32) -> Vec<u8> {
+    t.to_string().into_bytes()
+  }
+  fn min_le(t: u32) -> Vec<u8> {
+    let mut b = t.to_le_bytes().to_vec();
+    while b.len() > 1 && *b.last().unwrap() == 0 {
+      b.pop();
+    }
+    b
+  }
+  fn min_be(t: u32) -> Vec<u8> {
+    let b = t.to_be_bytes();
+    let k = b.iter().position(|&x| x != 0).unwrap_or(3);
+    b[k..].to_vec()
+  }
+  fn hexa(t: u32) -> Vec<u8> {
+    format!("{:x}", t).into_bytes()
+  }
+  vec![("LEB128", leb), ("decimal", dec), ("minimal little-endian", min_le), ("minimal big-endian", min_be), ("hexadecimal", hexa)]
+}
+
+/// Distinctness under everything a canonicalisation or a variable-width framing could merge: for each base
+/// triple, every neighbour of the measurement, of the epoch, and every (epoch || prefix, t1) / (epoch, t2)
+/// pair in which prefix || enc(t1) == enc(t2) for a variable-width integer encoding.
+fn run_neighbours(cx: &mut CaseCx, _case: &Value) {
+  let bases: Vec<Vec<u8>> = vec![
+    b"epoch".to_vec(),
+    b"2026-09".to_vec(),
+    b"wk".to_vec(),
+    "caf\u{e9}".as_bytes().to_vec(),
+    b" t ".to_vec(),
+    vec![0x80],
+    vec![0xff, 0xfe],
+    vec![0, 0, 0, 254],
+    vec![0xc3, 0x28],
+    vec![b'a', 0xe2, 0x82],
+    vec![],
+  ];
+  let mut pairs: Vec<((Vec<u8>, Vec<u8>, u32), (Vec<u8>, Vec<u8>, u32), String)> = vec![];
+  let m0 = b"https://example.com/a".to_vec();
+  for b in &bases {
+    for (how, n) in neighbours(b) {
+      for t in [1u32, 3] {
+        pairs.push(((m0.clone(), b.clone(), t), (m0.clone(), n.clone(), t), format!("epoch: {}", how)));
+        pairs.push(((b.clone(), b"e".to_vec(), t), (n.clone(), b"e".to_vec(), t), format!("measurement: {}", how)));
+      }
+    }
+    // the empty measurement against the other components
+    pairs.push(((vec![], b.clone(), 2), (b.clone(), b.clone(), 2), "measurement: empty vs equal to the epoch".into()));
+    pairs.push(((vec![], b.clone(), 2), (b.clone(), vec![], 2), "measurement and epoch swapped with an empty one".into()));
+    pairs.push(((b.clone(), m0.clone(), 2), (m0.clone(), b.clone(), 2), "measurement and epoch swapped".into()));
+  }
+  for (ename, enc) in var_encodings() {
+    for t2 in [12u32, 120, 127, 128, 129, 255, 256, 300, 1000, 1234, 16383, 16384, 65538, (1 << 21) + 5] {
+      let full = enc(t2);
+      for k in 1..full.len() {
+        // the remainder must itself be the encoding of some t1
+        for t1 in [1u32, 2, 3, 4, 5, 7, 8, 9, 12, 16, 20, 23, 34, 100, 127, 128, 234, 256, 300, 512, 1000] {
+          if enc(t1) == full[k..] && t1 != t2 {
+            for base in [b"wk".to_vec(), b"2026-09".to_vec(), vec![]] {
+              let e1 = [&base[..], &full[..k]].concat();
+              pairs.push(((m0.clone(), e1, t1), (m0.clone(), base.clone(), t2), format!("epoch || {}(threshold) splits two ways", ename)));
+            }
+          }
+        }
+      }
+    }
+  }
+  pairs.retain(|(a, b, _)| a != b);
+  cx.count("framing_pairs", pairs.iter().filter(|p| p.2.contains("splits two ways")).count() as u64);
+  let seed = cx.seed;
+  let res = par_map(&pairs, |i, (a, b, _)| {
+    getrandom::verif::reset(seed ^ fnv_str("c04nb") ^ i as u64);
+    let f = |x: &(Vec<u8>, Vec<u8>, u32)| {
+      let r = rnd_of(&x.0, &x.1, x.2);
+      // the dealer materialises t-1 coefficients: tags and keys only for moderate thresholds
+      let w = if x.2 > 20_000 { None } else { guard(|| MessageGenerator::new(SingleMeasurement::new(&x.0), x.2, &x.1).share_with_local_randomness().ok().map(|w| (w.tag, w.key))).ok().flatten() };
+      (r, w)
+    };
+    (f(a), f(b))
+  });
+  for (i, ((ra, wa), (rb, wb))) in res.iter().enumerate() {
+    cx.eval();
+    cx.nontrivial(i as u64);
+    let (a, b, how) = &pairs[i];
+    let d = || json!({"m1": hexs(&a.0), "e1": hexs(&a.1), "t1": a.2, "m2": hexs(&b.0), "e2": hexs(&b.1), "t2": b.2, "relation": how});
+    if ra == rb {
+      cx.viol("C04/randomness-collision/neighbour", format!("two different (measurement, epoch, threshold) triples obtain the same local randomness ({})", how), d());
+    }
+    match (wa, wb) {
+      (Some(x), Some(y)) => {
+        if x.0 == y.0 {
+          cx.viol("C04/tag-collision", format!("two different triples obtain the same tag ({})", how), d());
+        }
+        if x.1 == y.1 {
+          cx.viol("C04/key-collision", format!("two different triples obtain the same encryption key ({})", how), d());
+        }
+      }
+      _ if a.2 > 20_000 || b.2 > 20_000 => cx.count("randomness_only_pairs", 1),
+      _ => cx.viol("C04/share-failed", "share_with_local_randomness failed", d()),
+    }
+  }
+  cx.outcome(format!("{} neighbour pairs", pairs.len()));
+  cx.sample(json!({"pairs": pairs.len(), "bases": bases.len()}));
+}
+
+/// out-parameters: the value written must not depend on what the caller's buffer held before
+fn run_output_buffers(cx: &mut CaseCx, _case: &Value) {
+  let ss = strings(true);
+  for (i, m) in ss.iter().enumerate().take(60) {
+    let e = &ss[(i * 5 + 1) % ss.len()];
+    for t in [1u32, 2, 70000] {
+      let mg = MessageGenerator::new(SingleMeasurement::new(m), t, e);
+      let clean = rnd_of(m, e, t);
+      let mut prev = [0u8; 32];
+      mg.sample_local_randomness(&mut prev);
+      for (what, fill) in [("0xff bytes", [0xffu8; 32]), ("the previous output", prev), ("another client's output", rnd_of(b"other", e, t)), ("pseudo-random bytes", prbytes(i as u64, 32).try_into().unwrap())] {
+        let mut buf = fill;
+        mg.sample_local_randomness(&mut buf);
+        cx.eval();
+        if buf != clean {
+          cx.viol("C04/randomness-depends-on-buffer", format!("sample_local_randomness into a buffer that held {} gives another value than into a zeroed buffer: clients with the same triple disagree", what), json!({"m": hexs(m), "e": hexs(e), "t": t, "buffer_held": what}));
+          return;
+        }
+        // the symmetric key derivation writes into a caller buffer as well
+        let mut k0 = vec![0u8; 16];
+        sta_rs::derive_ske_key(&clean, e, &mut k0);
+        let mut k1 = fill[..16].to_vec();
+        sta_rs::derive_ske_key(&clean, e, &mut k1);
+        cx.eval();
+        if k0 != k1 {
+          cx.viol("C04/key-depends-on-buffer", format!("derive_ske_key into a buffer that held {} gives another key than into a zeroed buffer", what), json!({"buffer_held": what}));
+          return;
+        }
+        cx.count("buffer_probes", 1);
+      }
+      cx.nontrivial(fnv_str(&format!("{}|{}", i, t)));
+    }
+  }
+  cx.outcome("output buffers");
+}
+
 /// boundary search on internal values: the pairs of triples whose local randomness agree in the most leading /
 /// trailing bytes are processed back-to-back on one thread; each must come out as on a fresh thread
 fn run_near_collisions(cx: &mut CaseCx, _case: &Value) {
@@ -529,6 +729,20 @@ pub fn spec() -> PropSpec {
         gen: |_| vec![json!({})],
         run: run_near_collisions,
         min_counts: &[("near_collision_histories", 10)],
+      },
+      Check {
+        name: "neighbour-contexts",
+        rule: "for 11 base strings (text, padded, accented, invalid UTF-8, binary counters, empty) every NEIGHBOUR a canonicalisation could merge with it (each single-bit flip of the first 12 bytes, 11 bytes appended / prepended, first / last byte dropped, reversed, doubled, ASCII case folding, BOM, U+FFFD, lossy UTF-8 conversion, hex form, NFC/NFD, trimming; empty-vs-epoch and swapped components), as measurement and as epoch, t in {1,3}; and every pair (epoch || prefix, t1) / (epoch, t2) with prefix || enc(t1) == enc(t2) for the variable-width encodings LEB128, decimal, minimal LE/BE, hexadecimal: randomness, tag and key of the two triples differ",
+        gen: |_| vec![json!({})],
+        run: run_neighbours,
+        min_counts: &[("evaluations", 3000), ("framing_pairs", 30)],
+      },
+      Check {
+        name: "output-buffers",
+        rule: "sample_local_randomness and derive_ske_key write through a caller buffer: for 60 (measurement, epoch) pairs x t in {1,2,70000} x 4 prior buffer contents (0xff, the previous output, another client's output, pseudo-random) the value equals the one written into a zeroed buffer",
+        gen: |_| vec![json!({})],
+        run: run_output_buffers,
+        min_counts: &[("buffer_probes", 500)],
       },
       Check {
         name: "client-threads",
